@@ -304,6 +304,8 @@ class Prog:
                 gobj.linear_solver = opts['linear_solver']()
             if 'nonlinear_solver' in opts:
                 gobj.nonlinear_solver = opts['nonlinear_solver']()
+            if 'assembled_jac_type' in opts:
+                gobj.options['assembled_jac_type'] = opts['assembled_jac_type']
         for name, kw in self.desvars:
             p.model.add_design_var(name, **kw)
         for name, kw, kind in self.responses:
